@@ -76,7 +76,7 @@ def run(repo, rep):
     from ..codec_rules import check_roundtrip, check_wire
     from ..layout import LayoutExtractor
     lx = LayoutExtractor(repo)
-    check_wire(lx, rep, prefix='C10', only=('MaximumLengthSubItem',), rule_map={'L1': 'X7', 'L2': 'X7', 'L3': 'X7', 'L5': 'X7'})
+    check_wire(lx, rep, prefix='C10', only=('MaximumLengthSubItem',), rule_map={'L1': 'X7', 'L2': 'X7', 'L3': 'X7', 'L5': 'X7', 'L6': 'X7'})
 
     # ---------------------------------------------------------------- X1 / X2
     facts = {}
